@@ -38,7 +38,7 @@ JUDGE_NAMES = {
 
 
 def n_schedules(tier):
-    return 1200 if tier == "quick" else 40000
+    return 1200 if tier == "quick" else 12000
 
 
 def gen_lines(ctx, n, tag="sched"):
@@ -107,7 +107,7 @@ def run(ctx):
     proved = None
     model_ok = False
     if HAVE_COQ:
-        model_ok, outm = ctx.coq_make(["Model/MonUpd.vo"])
+        model_ok, outm = ctx.coq_make(["Model/MonUpd.vo", "Model/MonUpdTrace.vo"])
         if not model_ok:
             ctx.log(outm[-1500:])
         proved = ctx.prove("C09")
@@ -155,7 +155,7 @@ def run(ctx):
     corr_dis = None
     if HAVE_COQ and model_ok:
         from props import _c09_model as M
-        ncorr = 250 if ctx.tier == "quick" else 6000
+        ncorr = 250 if ctx.tier == "quick" else 2500
         corr_dis = M.correspondence(ctx, lines[:ncorr], traces[:ncorr])
     # ---- decide (DESIGN.md §9)
     for (i, v) in failing[:3]:
